@@ -46,7 +46,7 @@ TEXT = {
             "theorem", "graphlib external"),
     "C16": ("highwater = local ancillae + max over cuts (Lean theorem over an ordered additive group; the literal loop incl. the zero-watermark filter equals the cut formula on non-negative sizes); Lean `highwaterImpl` on the values of every real compiled node vs the real highwater; independent cut enumeration on real compiled trees, also for Routine objects with another valid children_order",
             "theorem", "as C01"),
-    "C17": ("verification is the first step of compile_routine in the model and any topology/repetition problem or child cycle is a compilation error (proved); the KeyError/CycleError/AssertionError sites of `_compile` are unreachable on soundly wired trees of any depth and sequence kind (proved; hypothesis `Routine.sound` evaluated by the driver on every compiled routine); fault injection at every position on the real code; "
+    "C17": ("verification is the first step of compile_routine in the model and any topology/repetition problem or child cycle is a compilation error (proved); the KeyError/CycleError/AssertionError sites of `_compile` are unreachable on soundly wired trees of any depth and sequence kind (proved; hypothesis `Routine.sound` evaluated by the driver on every compiled routine); a resource type the repetition cannot process (`other`, `qubits` under a non-constant sequence) ends in bartiq's own error for every sequence kind and listing position (proved; table walked on the real code); fault injection at every position on the real code; "
             "partial on exceptions raised inside sympy",
             "theorem", "qref verify_topology is a hand model, corresponded on every injected fault"),
     "C18": ("LaTeX rendering total and complete: oracle with an independent formatter of entry keys incl. multiplicity, four flag combinations, source and compiled documents",
